@@ -44,7 +44,12 @@ func (f *Or) Call(s *slip.Scope, args slip.List, depth int) (result slip.Object)
 	result = nil
 	d2 := depth + 1
 	for i := range args {
-		if result = slip.EvalArg(s, args, i, d2); result != nil {
+		result = slip.EvalArg(s, args, i, d2)
+		if i < len(args)-1 {
+			// Only the last form passes on all its values.
+			result = primaryValue(result)
+		}
+		if result != nil {
 			break
 		}
 	}
